@@ -242,6 +242,10 @@ fn gen_gff(w: &World, d: Dialect) -> Vec<GffModel> {
             break;
         }
         let mut attrs: Vec<(String, Vec<String>)> = vec![];
+        let many_values = w.chance(1, 40);
+        if many_values {
+            w.probe("many_values_record");
+        }
         // at most 5 keys: the hash order of the keys is forced by rejection sampling (5! = 120)
         while w.more(attrs.len() as u64, 5) {
             let mut key = match w.draw(10) {
@@ -253,9 +257,16 @@ fn gen_gff(w: &World, d: Dialect) -> Vec<GffModel> {
                 key.push('2');
             }
             let mut vals = vec![gen_attr_string(w, d, false)];
-            let max_vals = if w.chance(1, 20) { 12 } else { 3 };
-            while w.more(vals.len() as u64, max_vals) && w.chance(2, 3) {
-                vals.push(gen_attr_string(w, d, false));
+            if many_values {
+                // a record with dozens of values: sorting / hashing code changes behaviour with size
+                while w.more_p(vals.len() as u64, 60, 19, 20) {
+                    vals.push(gen_attr_string(w, d, false));
+                }
+            } else {
+                let max_vals = if w.chance(1, 20) { 12 } else { 3 };
+                while w.more(vals.len() as u64, max_vals) && w.chance(2, 3) {
+                    vals.push(gen_attr_string(w, d, false));
+                }
             }
             attrs.push((key, vals));
         }
@@ -788,7 +799,7 @@ fn damage(w: &W, fmt: Fmt) -> Verdict {
     let nf = fields.len();
     let kind = match fmt {
         Fmt::Bed => w.draw(if j > 0 { 4 } else { 2 }),
-        Fmt::Gff(_) => w.draw(if j > 0 { 5 } else { 3 }),
+        Fmt::Gff(_) => w.draw(5),
     };
     let what: String;
     match (fmt, kind) {
@@ -1083,13 +1094,13 @@ pub fn property() -> Property {
         stubs: &["the OS file/pipe under the writer (SimWrite: short writes, EINTR)", "the OS file/pipe under the reader (SimRead: short reads, EINTR)", "the editor that inserts comment lines", "media fault / bad edit (targeted field damage, byte corruption, cut)"],
         assumptions: &[
             "domain: fields contain no tab and no '\\n'; the first column does not start with '#'; GFF attribute keys/values are non-empty, avoid the dialect's delimiters (GFF3: '=' ';' ',' ; GFF2/GTF2: blank ';' NUL), tabs, line breaks and quote characters; GFF3 keys do not start with a blank",
-            "column-count damage is only applied to lines other than the first (the first line defines the column count)",
+            "BED column-count damage is only applied to lines other than the first (BED has no fixed column count: the first line defines it); GFF column-count damage is applied to any line (a GFF record always has nine columns)",
             "under injected EINTR the csv reader may surface Err(Interrupted) and stop: accepted only if EINTR fired, the Ok items are a correct prefix, and the loss is signalled by that Err item",
             "random byte corruption is only checked for panics and livelock (a flipped byte can be a quote that legitimately swallows lines)",
         ],
         expected_probes: &[
             "multi_valued_attribute", "key_order_differs_from_insertion", "quoted_csv_field", "csv_field_or_line_split_across_reads",
-            "damage_bad_number", "damage_bad_phase", "damage_phase_in_u8_range", "damage_column_missing", "damage_column_added", "eintr_surfaced_by_reader", "many_records_regime", "records_iterator_restarted", "damaged_line_follows_comment", "damaged_last_line_without_newline",
+            "damage_bad_number", "damage_bad_phase", "damage_phase_in_u8_range", "damage_column_missing", "damage_column_added", "eintr_surfaced_by_reader", "many_records_regime", "many_values_record", "records_iterator_restarted", "damaged_line_follows_comment", "damaged_last_line_without_newline",
         ],
         quick_runs: 300_000,
         thorough_runs: 20_000_000,
